@@ -15,6 +15,7 @@ Two parts.
     the real tables after every operation.
 -/
 import TeosVerif.Lemmas.Tower
+import TeosVerif.Lemmas.TowerUsers
 import TeosVerif.Model.Slots
 
 namespace Teos.C07
@@ -194,5 +195,24 @@ example :
     let s2 := (addAppointment s1 { send := fun _ => .ok, get := fun _ => .rpc (-5) } (some 7) 4 (.junk 2 100) 0 0).1
     (s1.mem.users 7).map (·.slots) = some 1 ∧ (s2.mem.users 7).map (·.slots) = some 2 ∧
     (s2.db.users 7).map (·.slots) = some 2 := by decide
+
+
+/-! ### history level -/
+
+/-- **the balance kept in memory and the one persisted are the same number, always**: after any
+history whatsoever (registrations, submissions and replacements, reads, blocks with breaches,
+completions with refunds, purges, reorgs; any node behaviour), for every user the record in the
+gatekeeper's memory is the row of the users table — slots, start and expiry. -/
+theorem memory_equals_disk_forever (cfg : Cfg) (db : Db) (height : Nat) (blocks : List (Nat × List TxId))
+    (hist : List (Node × Op)) (u : User) :
+    (runHistory cfg (boot db height blocks) hist).mem.users u =
+      (runHistory cfg (boot db height blocks) hist).db.users u :=
+  congrFun (usersEq_history cfg hist (boot db height blocks) rfl) u
+
+/-- in particular a refunding deletion (completed trackers) writes to disk exactly the balances
+it computed in memory, whatever the set of completed trackers and their owners -/
+theorem refund_persists_what_memory_holds (s : Tower) (ks : List Uuid) (h : s.mem.users = s.db.users) :
+    (deleteAppointments s ks true).mem.users = (deleteAppointments s ks true).db.users :=
+  refund_users_eq s ks h
 
 end Teos.C07
